@@ -32,6 +32,7 @@ Definition out_material (e : entry) : N :=
   | PEcdsaPub _ _ _ _ | PRsaPkcs1Pub _ _ _ | PRsaPssPub _ _ _ _ => km_public
   | PEcdsaPriv _ _ _ _ _ => km_private
   | PFallback _ => emat e
+  | d => more_material d      (* the key types C14 modelled later; outside C13's scope *)
   end.
 
 (* entryToProtoKey *)
